@@ -365,6 +365,13 @@ A_C05_CallSettlement ==
         /\ bal' = [bal EXCEPT ![cl[c].u] = @ + (IF parked[op'.id].ok THEN 0 ELSE cl[c].amt)]
      \/ op'.name = "Observe"    \* timeout refund: exactness by C04_Conservation, legitimacy by C06
 C05_CallSettlement == [][A_C05_CallSettlement]_vars
+\* once its execution has been observed, a bridge call can no longer be refunded: it leaves only through
+\* the execution of its parked result claim, and the creator is paid nothing for a successful one
+A_C05_NoRefundAfterObservedExecution ==
+  \A c \in ClIds : (cl[c].st = "open" /\ cobs[c] = "succ" /\ cl'[c].st = "gone") =>
+     /\ op'.name = "ExecuteClaim" /\ parked[op'.id].t = "call" /\ parked[op'.id].a = c
+     /\ bal'[cl[c].u] = bal[cl[c].u]
+C05_NoRefundAfterObservedExecution == [][A_C05_NoRefundAfterObservedExecution]_vars
 
 \* ---- C06
 \* a batch / call is released for timeout only in an Observe step whose event proves the height
